@@ -190,7 +190,11 @@ CHECKS = {
              "half-open denotation at the frame times, on annotations with gaps completed by the label of a row ending "
              "exactly there (frames_with_gaps); exact correspondence for the rational "
              "indices, 1e-9 for the transcendental ones; thorough tier enumerates all pairs of restricted-growth "
-             "label sequences up to 8 frames.",
+             "label sequences up to 8 frames. The index functions themselves (_contingency_matrix, _adjusted_rand_index, the "
+             "bodies of pairwise / rand_index / ari, and - polymorphically over the model's number class - _entropy, "
+             "_mutual_info_score, _normalized_mutual_info_score, nce, vmeasure) are re-translated from segment.py on every run "
+             "(harness/translate/segindex.py -> lean/MirGen/SegIndex.lean) and proved equal to the hand model for all label "
+             "sequences (Props/C16_GenIndex.lean), so a source change to one of them breaks a named <f>_eq_model theorem.",
         note="The textbook forms are over the reals (the Real instance of the model's Transc class); the executed "
              "Float instance is tied to them only through the shared definition and the 1e-9 correspondence.",
         design="§5 C16"),
